@@ -34,7 +34,7 @@ func hE2E(dir string) {
 	tc := regattapb.NewTablesClient(leader.conn)
 	// C19 / C10: the term reported in response headers never moves backwards, revisions of
 	// acknowledged writes strictly increase per table
-	var lastTerm, lastRev uint64
+	var lastTerm, lastRev, shardID uint64
 	termsOK, revsOK := true, true
 	seeHeader := func(h *regattapb.ResponseHeader, write bool) {
 		if h == nil {
@@ -44,6 +44,13 @@ func hE2E(dir string) {
 			termsOK = false
 		}
 		lastTerm = h.RaftTerm
+		// a single-node cluster: replica 1 answers, the leader - once there is one - is replica 1, the shard
+		// id is the table's (beyond the reserved range) and the same in every answer about the table
+		if h.ReplicaId != 1 || h.RaftLeaderId > 1 || h.ShardId <= 10000 || (shardID != 0 && h.ShardId != shardID) {
+			termsOK = false
+			out.Count(fmt.Sprintf("header_fields_replica%d_leader%d_shard%d", h.ReplicaId, h.RaftLeaderId, h.ShardId))
+		}
+		shardID = h.ShardId
 		if write {
 			if h.Revision <= lastRev {
 				revsOK = false
@@ -68,7 +75,7 @@ func hE2E(dir string) {
 				break
 			}
 		}
-		lastRev, lastTerm = 0, 0 // per table: every table is a Raft shard with terms of its own
+		lastRev, lastTerm, shardID = 0, 0, 0 // per table: every table is a Raft shard with terms of its own
 		out.Line("reset", "ok")
 		out.Line("new 0", "ok")
 		out.Line("new 1", "ok")
